@@ -129,9 +129,10 @@ Section Model.
 
   (* np.histogram(data, bins=n, range=(0, n), density=True): unit bins [k, k+1), the
      last one closed; values outside [0, n] are ignored *)
-  Definition in_bin (n k : nat) (x : F) : bool :=
+  Definition in_bin (n k : nat) : F -> bool :=
     let lo := ofZ (Z.of_nat k) in let hi := ofZ (Z.of_nat (S k)) in
-    nleb lo x && (if Nat.eqb (S k) n then nleb x hi else nltb x hi).
+    let last := Nat.eqb (S k) n in
+    fun x => nleb lo x && (if last then nleb x hi else nltb x hi).
   Definition count_bin (n k : nat) (xs : list F) : Z :=
     Z.of_nat (length (filter (in_bin n k) xs)).
   Definition hist_counts (n : nat) (xs : list F) : list Z :=
